@@ -504,7 +504,7 @@ func runC02(c *core.Ctx, ck *Check) {
 				eqSp = append(eqSp, sp)
 			}
 		}
-		for k := 0; k < c.Scale(12, 60) && len(near) >= 12; k++ {
+		for k := 0; k < c.Scale(30, 120) && len(near) >= 12; k++ {
 			cnt := []int{8, 9, 12, 16, 17, 32, 33, 40}[r.IntN(8)]
 			at := r.IntN(len(near))
 			pickNear := func() string {
@@ -539,6 +539,57 @@ func runC02(c *core.Ctx, ck *Check) {
 				})
 				tryWith(strings.Join(parts, sep), toks)
 				w.Count("shape:long-exclusion-list", 1)
+			}
+			if len(syn.and) > 0 && len(lowSp) > 0 && len(upSp) > 0 {
+				// 13..40 comparators of every kind over a few neighbouring bounds, the same bound under strict and non-strict
+				// operators: redundant-bound elimination, sorting (library sorts are unstable beyond 12 elements) and
+				// de-duplication are only exercised by lists of this length
+				sep := syn.and[r.IntN(len(syn.and))]
+				m := []int{13, 14, 16, 20, 33, 40}[r.IntN(6)]
+				// a satisfiable list: lower comparators on bounds at or below L, upper comparators at or above U (L < U in
+				// the pool's order), L and U each under BOTH strictnesses, exclusions elsewhere
+				lo := r.IntN(len(near) - 4)
+				hi := lo + 1 + r.IntN(min(6, len(near)-lo-1))
+				strict := func(l []string, wantStrict bool) string {
+					for _, sp := range l {
+						if (len(syn.ops[sp]) == 1) == wantStrict {
+							return sp
+						}
+					}
+					return l[0]
+				}
+				var parts, toks []string
+				add := func(sp, b string) { parts, toks = append(parts, sp+b), append(toks, sp, b) }
+				L, U := p.Strs[near[lo]], p.Strs[near[hi]]
+				add(strict(lowSp, true), L)
+				add(strict(lowSp, false), L)
+				add(strict(upSp, true), U)
+				add(strict(upSp, false), U)
+				for len(parts) < m {
+					switch r.IntN(4) {
+					case 0:
+						add(lowSp[r.IntN(len(lowSp))], p.Strs[near[max(0, lo-r.IntN(4))]])
+					case 1:
+						add(upSp[r.IntN(len(upSp))], p.Strs[near[min(len(near)-1, hi+r.IntN(4))]])
+					case 2:
+						if len(neSp) > 0 {
+							add(neSp[r.IntN(len(neSp))], pickNear())
+						}
+					default:
+						if r.IntN(2) == 0 {
+							add(lowSp[r.IntN(len(lowSp))], L)
+						} else {
+							add(upSp[r.IntN(len(upSp))], U)
+						}
+					}
+				}
+				r.Shuffle(len(parts), func(a, b int) {
+					parts[a], parts[b] = parts[b], parts[a]
+					toks[2*a], toks[2*b] = toks[2*b], toks[2*a]
+					toks[2*a+1], toks[2*b+1] = toks[2*b+1], toks[2*a+1]
+				})
+				tryWith(strings.Join(parts, sep), toks)
+				w.Count("shape:long-mixed-and-list", 1)
 			}
 			if len(eqSp) > 0 && len(syn.or) > 0 {
 				osep := syn.or[r.IntN(len(syn.or))]
